@@ -128,7 +128,7 @@ def steps_for(rng, kinds):
     cat += [('nop', {'mn': 'nop', 'ops': []}), ('ldn 7', {'mn': 'ldn', 'ops': [{'t': 'fixed', 'form': {'f': 'plain', 'e': ('num', 7)}}]})]
     if rng.random() < 0.08:
         cat += [('ldw @ARG(7)', {'mn': 'ldw', 'ops': [{'t': 'arg', 'n': 7}]})]
-    k = rng.randint(1, 4)
+    k = rng.choice([0, 1, 1, 2, 2, 3, 3, 4, 4, 1, 2, 3])     # also a variant that expands to nothing at all
     return [rng.choice(cat) for _ in range(k)]
 
 
